@@ -115,13 +115,11 @@ def model_inputs(ctx, model):
 
 
 def _comparable(v):
-    if isinstance(v, (Obj, Extern, ModelValue, MapBox)) or callable(v):
-        return False
     if isinstance(v, (list, tuple)):
         return all(_comparable(x) for x in v)
     if isinstance(v, dict):
         return all(_comparable(x) for x in v.values())
-    return True
+    return v is None or isinstance(v, (str, int, float, bool, bytes))
 
 
 def _same(a, b):
@@ -387,7 +385,7 @@ def _cross_check(target, rep, res, pid):
         problems.append("outcome kind: symbolic %r vs native %r" % (sout, nout))
     elif sout.kind == 'return':
         sv = concretize(sout.value, model)
-        if _comparable(sv) and _comparable(nout.value) and not _same(sv, nout.value):
+        if target.compare_return and _comparable(sv) and _comparable(nout.value) and not _same(sv, nout.value):
             problems.append("return value: symbolic %r vs native %r" % (sv, nout.value))
     else:
         if not issubclass(type(nout.exc), sout.exc.cls) and not issubclass(sout.exc.cls, type(nout.exc)):
@@ -537,7 +535,7 @@ def search_witness(target, ob, tries=4000):
     names = sorted({v for v in ob.model.values() if isinstance(v, str) and v} |
                    {k for v in ob.model.values() if isinstance(v, dict) for k in v} | {'A', 'B', 'PATH'})
     names = [n for n in names if ':' not in n and '$' not in n][:6]
-    values = ['v', '', 'x/y'] + ['$%s' % n for n in names] + ['${%s}:z' % n for n in names] + ['a:$%s' % n for n in names]
+    values = ['v', '', 'x/y', 'two\nlines', 'back\\slash\ttab'] + ['$%s' % n for n in names] + ['${%s}:z' % n for n in names] + ['a:$%s' % n for n in names]
     want = target.native_label(ob.label)
 
     def sample(v, name):
@@ -551,7 +549,8 @@ def search_witness(target, ob, tries=4000):
                     d[k] = v[k] if rng.random() < 0.5 else rng.choice(values)
             return d
         if isinstance(v, str):
-            return rng.choice(names) if rng.random() < 0.8 else v
+            r = rng.random()
+            return rng.choice(names) if r < 0.6 else (rng.choice(values) if r < 0.9 else v)
         return v
     for i in range(tries):
         inputs = {k: sample(v, k) for k, v in ob.model.items()}
